@@ -1,6 +1,7 @@
 // dev-c14: throw-away driver for the C14 check while it is not wired into verifcheck.
-//   dev-c14 quick|thorough      run the check
-//   dev-c14 probe-rearm         side probe: does a restart re-arm a TTL from load time?
+//
+//	dev-c14 quick|thorough      run the check
+//	dev-c14 probe-rearm         side probe: does a restart re-arm a TTL from load time?
 package main
 
 import (
